@@ -290,6 +290,15 @@ def spline_anchors(env, ny):
     st = surface(name="wing", nx=2, ny=ny, model="tube", extra=dict(twist_cp=cp, chord_cp=cp + 1, xshear_cp=cp, yshear_cp=cp, zshear_cp=cp,
                                                                    t_over_c_cp=cp, thickness_cp=cp / 10, radius_cp=cp))
     sw = surface(name="wing", nx=2, ny=ny, model="wingbox", extra=dict(spar_thickness_cp=cp / 10, skin_thickness_cp=cp / 10))
+    # spanwise stations that are not evenly spaced (a cosine-like clustering towards the tip)
+    for sd in (st, sw):
+        y = np.array(sd["mesh"][0, :, 1], dtype=float)
+        t = (y - y[0]) / (y[-1] - y[0])
+        sd["mesh"] = np.array(sd["mesh"], dtype=float)
+        sd["mesh"][:, :, 1] = y[0] + (y[-1] - y[0]) * t ** 1.7
+    ys = np.array(st["mesh"][0, :, 1], dtype=float)
+    xn = (ys - ys[0]) / (ys[-1] - ys[0])                  # normalised span of the stations: 0 at the tip, 1 at the root
+    xm = 0.5 * (xn[1:] + xn[:-1])
     seen = 0
     for label, build in (("Geometry", lambda m: m.add_subsystem("g", Geometry(surface=st))),
                          ("TubeGroup", lambda m: m.add_subsystem("g", TubeGroup(surface=st))),
@@ -305,6 +314,9 @@ def spline_anchors(env, ny):
             lo = float(o.get("x_cp_start", x[0]))
             hi = float(o.get("x_cp_end", x[-1]))
             seen += 1
+            want = xn if len(x) == len(xn) else xm
+            env.holds("C13,C10,C15", "%s.%s: the distribution is evaluated at the normalised span of the stations (nodes or panel mid-points), not at their index" % (label, c.name),
+                      len(x) == len(want) and float(np.max(np.abs(x - want))) <= 1e-12, "evaluation points %s, stations %s" % (np.round(x, 4), np.round(want, 4)))
             env.holds("C13,C10,C15", "%s.%s: control points anchored at normalised span 0 and 1" % (label, c.name),
                       abs(lo) <= 1e-12 and abs(hi - 1) <= 1e-12, "first control point at %.4g, last at %.4g (evaluation points %.4g .. %.4g)" % (lo, hi, x[0], x[-1]))
     env.holds("C13", "the spline scan saw the distributions", seen >= 10, "%d spline components" % seen)
